@@ -213,7 +213,7 @@ pub fn supervised<T: Send + 'static>(label: &str, watchdog: Duration, f: impl Fn
             // (`wake_by_ref(); Pending`), so a task waiting for a processor that will never answer
             // keeps its thread running for ever. After a long stall, look at the stacks: if every
             // thread that is not asleep is only spinning inside such a wait, nobody can make progress.
-            if stalled > Duration::from_secs(30) && spin_checks < 3 {
+            if stalled > Duration::from_secs(12 + 12 * spin_checks as u64) && spin_checks < 5 {
                 if let Some(prev) = prev_stats.as_ref() {
                     spin_checks += 1;
                     let busy: Vec<u64> = cur
